@@ -18,6 +18,10 @@ REPO = os.environ.get("VERIF_REPO", "/repo")
 VERIF = os.path.dirname(os.path.dirname(os.path.abspath(__file__)))
 SIM = os.path.join(VERIF, "sim")
 BUILD = os.environ.get("VERIF_BUILD", os.path.join(VERIF, "build"))
+# Optional shared object cache (tools/mutant.sh sets it so that a scratch copy
+# of the repo only recompiles the translation units its patch touches). Never
+# set by the registered check commands.
+OBJCACHE = os.environ.get("VERIF_OBJCACHE")
 
 CXX = "g++"
 COMMON = ["-std=c++20", "-O1", "-g1", "-DOOMD_VERIF", "-DMESON_BUILD",
@@ -72,7 +76,7 @@ def header_hash():
             for f in sorted(files):
                 if f.endswith((".h", ".hpp", ".in")):
                     p = os.path.join(d, f)
-                    h.update(p.encode())
+                    h.update(os.path.relpath(p, root).encode())
                     h.update(open(p, "rb").read())
     return h.hexdigest()
 
@@ -85,14 +89,27 @@ def ensure_version_h(outdir):
 
 
 def compile_one(args):
-    src, obj, flags = args
+    src, obj, flags, cached_obj = args
     if os.path.exists(obj):
         return (src, 0, "", True)
     tmp = obj + ".tmp%d" % os.getpid()
+    if cached_obj and os.path.exists(cached_obj):
+        import shutil
+        shutil.copyfile(cached_obj, tmp)
+        os.rename(tmp, obj)
+        return (src, 0, "", True)
     cmd = [CXX] + flags + ["-c", src, "-o", tmp]
     r = subprocess.run(cmd, capture_output=True, text=True)
     if r.returncode == 0:
         os.rename(tmp, obj)
+        if cached_obj:
+            import shutil
+            ctmp = cached_obj + ".tmp%d" % os.getpid()
+            try:
+                shutil.copyfile(obj, ctmp)
+                os.rename(ctmp, cached_obj)
+            except OSError:
+                pass
     return (src, r.returncode, r.stderr, False)
 
 
@@ -113,6 +130,11 @@ def _build(flavour, outdir, quiet):
     inc = ["-I" + os.path.join(REPO, "src"), "-I" + outdir, "-I" + SIM,
            "-I/usr/include/jsoncpp"]
     flags = COMMON + san + inc
+    if OBJCACHE:
+        # make __FILE__ and debug info independent of where the copy lives
+        flags = flags + ["-ffile-prefix-map=%s=/repo" % REPO]
+        inc = inc + ["-ffile-prefix-map=%s=/repo" % REPO]
+        os.makedirs(os.path.join(OBJCACHE, flavour), exist_ok=True)
     hh = header_hash()
     jobs = []
     objs = []
@@ -127,12 +149,18 @@ def _build(flavour, outdir, quiet):
         # the thread scheduler must be invisible to the sanitizers
         if os.path.basename(src).startswith("nosan_"):
             f = COMMON + inc
-        key = sha(open(src, "rb").read() + hh.encode() + " ".join(f).encode()
-                  + src.encode())[:20]
+        # the key does not depend on where the repo copy or the build
+        # directory live
+        rel = os.path.relpath(src, REPO if src.startswith(REPO + "/") else SIM)
+        fnorm = " ".join(f).replace(outdir, "@OUT").replace(REPO, "@REPO")
+        key = sha(open(src, "rb").read() + hh.encode() + fnorm.encode()
+                  + rel.encode())[:20]
         stem = os.path.basename(src).replace(".cpp", "")
         obj = os.path.join(outdir, "%s-%s.o" % (stem, key))
         objs.append(obj)
-        jobs.append((src, obj, f))
+        cobj = os.path.join(OBJCACHE, flavour, "%s-%s.o" % (stem, key)) \
+            if OBJCACHE else None
+        jobs.append((src, obj, f, cobj))
     failed = False
     with cf.ThreadPoolExecutor(max_workers=os.cpu_count() or 4) as ex:
         for src, rc, err, cached in ex.map(compile_one, jobs):
